@@ -230,7 +230,8 @@ class Scratch:
 
 # -------------------------------------------------------------------- known findings
 def load_known():
-    p = os.path.join(VERIF, "known_findings.json")
+    # VERIF_KNOWN_FILE: development aid for evaluating a candidate repair before its fix commit exists (never set by MANIFEST commands)
+    p = os.environ.get("VERIF_KNOWN_FILE") or os.path.join(VERIF, "known_findings.json")
     if not os.path.exists(p):
         return {"known": [], "fixed": []}
     return json.load(open(p))
